@@ -370,6 +370,18 @@ func c01gen(c *Ctx, label string, nh int, maxKeys int) {
 				case "uniform8", "uniform16", "uniform64":
 					m := map[string]int{"uniform8": 8, "uniform16": 16, "uniform64": 64}[kind]
 					cl := rng.Intn(m)
+					if tr := st.trees[t]; r >= 95 && tr != nil && tr.Len() >= 3 {
+						// a key looked up last; a different key removed with no lookup after it; the first key
+						// replaced and looked up: must show the replacement
+						var present []int
+						tr.Inorder(func(k sk) bool { present = append(present, k.C); return true })
+						a, b := present[rng.Intn(len(present))], present[rng.Intn(len(present))]
+						ga := []any{[]any{float64(a)}}
+						do(Op{"op": "replace", "t": t, "k": fresh(a), "gets": ga})
+						do(Op{"op": "remove", "t": t, "k": [2]int{b, 0}, "gets": []any{}})
+						do(Op{"op": "replace", "t": t, "k": fresh(a), "gets": ga})
+						continue
+					}
 					switch {
 					case r < 40:
 						do(Op{"op": "add", "t": t, "k": fresh(cl)})
@@ -623,8 +635,8 @@ func runC02(c *Ctx) {
 		replayPathC01(c, c.NewHist("tlc-path"), p)
 	}
 	c01gen(c, "c02", c.Pick(96, 3000), 0)
-	c01kindsOverride = []string{"restart"}
-	c01gen(c, "c02-restart", c.Pick(48, 600), 0)
+	c01kindsOverride = []string{"restart", "clonefork", "clonefork"}
+	c01gen(c, "c02-restart", c.Pick(72, 900), 0)
 	c01kindsOverride = nil
 	// thousands of keys in adversarial order at strict balance factors
 	for i := 0; i < c.Pick(2, 8); i++ {
